@@ -189,16 +189,17 @@ type Conn struct {
 	rd   *Half // we read from this
 	wr   *Half // we write to this
 
-	mu        sync.Mutex
-	closed    bool
-	rdl, wdl  time.Time
-	rdt, wdt  *time.Timer
-	Deadlines []DEvent
-	CloseT    time.Duration
-	CloseTick int64
-	local     net.Addr
-	remote    net.Addr
-	start     time.Time
+	mu               sync.Mutex
+	closed           bool
+	resetFailsWrites bool
+	rdl, wdl         time.Time
+	rdt, wdt         *time.Timer
+	Deadlines        []DEvent
+	CloseT           time.Duration
+	CloseTick        int64
+	local            net.Addr
+	remote           net.Addr
+	start            time.Time
 }
 
 // Pair returns the two ends (a, b) of a new in-memory connection.
@@ -217,6 +218,11 @@ func Pair(o Options) (*Conn, *Conn) {
 // In is the half this end reads from; Out the half it writes to.
 func (c *Conn) In() *Half  { return c.rd }
 func (c *Conn) Out() *Half { return c.wr }
+
+// SetResetFailsWrites: once a Read on this end has reported a reset (a cut of
+// kind CutRST), Writes on it fail with EPIPE, as on a socket.  Off by default:
+// a cut then only affects the direction it was placed on.
+func (c *Conn) SetResetFailsWrites(on bool) { c.mu.Lock(); c.resetFailsWrites = on; c.mu.Unlock() }
 
 // SetAddrs overrides the addresses reported by the connection.
 func (c *Conn) SetAddrs(local, remote net.Addr) { c.local, c.remote = local, remote }
@@ -384,7 +390,22 @@ func (c *Conn) Read(p []byte) (int, error) {
 	h.mu.Lock()
 	n, err := c.readLocked(p)
 	h.Reads = append(h.Reads, REvent{Req: len(p), N: n, Err: errStr(err), T: time.Since(h.start), Tick: Tick()})
+	wasReset := err != nil && h.cutAt >= 0 && h.cutKind == CutRST && h.delivered >= h.cutAt
 	h.mu.Unlock()
+	if wasReset {
+		c.mu.Lock()
+		rw := c.resetFailsWrites
+		c.mu.Unlock()
+		if rw {
+			// a connection that was reset is dead in both directions
+			c.wr.mu.Lock()
+			if c.wr.werrAfter < 0 {
+				c.wr.werrAfter, c.wr.werr, c.wr.werrRaw = c.wr.written, syscall.EPIPE, false
+			}
+			c.wr.mu.Unlock()
+			c.wr.cond.Broadcast()
+		}
+	}
 	if n > 0 {
 		h.cond.Broadcast() // window space for the writer
 	}
